@@ -79,7 +79,7 @@ def _duration(ns, fs, meta_dur):
     return _pos(meta_dur[1] / fs)
 
 
-def write_recording(folder, typ, counts, ns, data, range_max, meta_dur=None, tail_bytes=0):
+def write_recording(folder, typ, counts, ns, data, range_max, meta_dur=None, tail_bytes=0, gains=None):
     """Mock recording: <folder>/c10_g0_t0.<typ>.bin + .meta; returns the bin path."""
     if isinstance(data, np.ndarray):
         D = data.astype(np.int16)
@@ -90,7 +90,7 @@ def write_recording(folder, typ, counts, ns, data, range_max, meta_dur=None, tai
     if typ == "nidq":
         fs = 30000.0
         meta = {"nSavedChans": nc, "niSampRate": 30000, "fileTimeSecs": _duration(ns, fs, meta_dur), "typeThis": "nidq",
-                "snsMnMaXaDw": ",".join(str(c) for c in counts), "niMNGain": 200, "niMAGain": 1,
+                "snsMnMaXaDw": ",".join(str(c) for c in counts), "niMNGain": (gains or [200, 1])[0], "niMAGain": (gains or [200, 1])[1],
                 "niAiRangeMax": range_max, "niAiRangeMin": -range_max, "fileSizeBytes": ns * nc * 2}
         txt = "".join("%s=%s\n" % kv for kv in meta.items())
         p = folder / "c10_g0_t0.nidq.bin"
@@ -499,9 +499,10 @@ def exec_sync_read(case):
     tags = {"kind": "sync_read", "typ": "nidq" if typ == "nidq" else "imec"}
     D = np.array(data, dtype=np.int64).reshape(ns, nc)
     wcols, acols = _layout(typ, counts, nc)
-    start, stop = (0, 10000) if sl is None else sl
+    start, stop = (0, 10000) if sl is None else sl[:2]
+    step = 1 if (sl is None or len(sl) < 3) else sl[2]           # python slice step >= 1
     a, b = _adjust(start, ns), _adjust(stop, ns)
-    sel = list(range(a, max(a, b)))
+    sel = list(range(a, max(a, b)))[::step]
     gain_f = Fraction(range_max) / 32768            # volts per count (analog sync: no amplifier gain)
     gain_i = gain_f * ONE
     assert gain_i.denominator == 1
@@ -519,7 +520,8 @@ def exec_sync_read(case):
     tmp = common.tmpdir("C10_")
     sr = None
     try:
-        p = write_recording(tmp, typ, counts, ns, data, range_max, case.get("meta_dur"), case.get("tail_bytes", 0))
+        p = write_recording(tmp, typ, counts, ns, data, range_max, case.get("meta_dur"), case.get("tail_bytes", 0),
+                            case.get("gains"))
         if case.get("path_as_str"):
             p = str(p)
         try:
@@ -532,9 +534,9 @@ def exec_sync_read(case):
             kwargs["threshold"] = thr
         if fl != "default":
             kwargs["floor_percentile"] = fl
-        args = () if sl is None else (slice(start, stop),)
+        args = () if sl is None else ((slice(start, stop),) if step == 1 else (slice(start, stop, step),))
         if sl is not None and case.get("np_slice"):
-            args = (slice(np.int64(start), np.int64(stop)),)
+            args = (slice(np.int64(start), np.int64(stop), None if step == 1 else np.int64(step)),)
         order = case.get("call_order", 0)            # the reader is stateful (memmap): vary the call sequence
         calls = {"rs": lambda: sr.read_sync(*args, **kwargs), "dg": lambda: sr.read_sync_digital(*args),
                  "an": lambda: sr.read_sync_analog(*args),
@@ -548,7 +550,7 @@ def exec_sync_read(case):
                               dict(tags, defect="stateful")))
             got[name] = (val, exc)
         r.inp = ([4, 1 if typ == "nidq" else 0] + list(counts) + ([0] if typ != "nidq" else []) +
-                 [nc, start, stop, ONE, int(thr_i), int(gain_i), 1 if use_floor else 0, int(thr_d), ns] +
+                 [nc, start, stop, step, ONE, int(thr_i), int(gain_i), 1 if use_floor else 0, int(thr_d), ns] +
                  [int(v) for v in data])
         r.out = []
         for name in ("rs", "dg", "an", "rd"):
@@ -670,7 +672,7 @@ def exec_ttl(case):
     sr = None
     try:
         p = write_recording(tmp, typ, counts, ns, D.ravel().tolist(), 4, case.get("meta_dur"),
-                            case.get("tail_bytes", 0))
+                            case.get("tail_bytes", 0), case.get("gains"))
         try:
             sr = spikeglx.Reader(p)
         except _IMPL_EXC as e:
@@ -757,6 +759,10 @@ def exec_nometa(case):
         except _IMPL_EXC as e:
             r.bad.append(("spikeglx.Reader could not open a flat binary: %r" % (e,), dict(tags, defect="open")))
             return r
+        an, exc = _try(lambda: sr.read_sync_analog(slice(0, ns)))
+        if exc is not None or an is not None:
+            r.bad.append(("meta-less reader: read_sync_analog should return None (no analog sync known), got %r / %r"
+                          % (type(an).__name__, exc), dict(tags, defect="analog_api")))
         try:
             s = sr.read_sync_digital(slice(0, ns))
             if s.shape != (ns, 16) or s.tolist() != [py_bits(v) for v in D[:, -1]]:
@@ -816,7 +822,7 @@ def exec_long_read(case):
     tmp = common.tmpdir("C10_")
     sr = None
     try:
-        p = write_recording(tmp, "nidq", [0, 0, 1, 1], ns, D, range_max, case.get("meta_dur"))
+        p = write_recording(tmp, "nidq", [0, 0, 1, 1], ns, D, range_max, case.get("meta_dur"), 0, case.get("gains"))
         try:
             sr = spikeglx.Reader(p)
         except _IMPL_EXC as e:
@@ -866,7 +872,7 @@ def exec_long_read(case):
 def gen_long_read(ctx):
     rng = ctx.rng
     out = [{"kind": "long_read", "ns": 1300000, "seed": rng.randrange(10 ** 6), "high_until": 1080000,
-            "period": 20000, "width": 3000, "base": 300, "amp": 20000}]
+            "period": 20000, "width": 3000, "base": 300, "amp": 20000, "gains": [200, 10]}]
     if ctx.thorough():
         out += [{"kind": "long_read", "ns": 1100000, "seed": rng.randrange(10 ** 6), "high_until": 920000,
                  "period": 5000, "width": 700, "base": -150, "amp": 15000, "meta_dur": ["decimals", 4]},
@@ -875,7 +881,56 @@ def gen_long_read(ctx):
     return out
 
 
-EXEC = {"long_read": exec_long_read, "split": exec_split, "fronts1": exec_fronts1, "fronts2": exec_fronts2,
+def exec_notopen(case):
+    """Reader constructed with open=False: the three sync readers refuse with IOError (the guard of the
+    anchored functions); after `with reader:` / open() they deliver the usual rows.  Oracle only."""
+    import spikeglx
+    r = Result()
+    ns, seed = case["ns"], case["seed"]
+    rs = np.random.RandomState(seed)
+    D = np.stack([np.where(rs.rand(ns) < 0.3, 15000, 40), rs.randint(-32768, 32768, size=ns)], axis=1).astype(np.int64)
+    tags = {"kind": "notopen", "typ": "nidq"}
+    tmp = common.tmpdir("C10_")
+    sr = None
+    try:
+        p = write_recording(tmp, "nidq", [0, 0, 1, 1], ns, D, 4)
+        sr, exc = _try(lambda: spikeglx.Reader(p, open=False))
+        if exc is not None:
+            r.bad.append(("spikeglx.Reader(open=False) raised %r" % (exc,), dict(tags, defect="open")))
+            return r
+        for name, call in (("read_sync_digital", lambda: sr.read_sync_digital(slice(0, ns))),
+                           ("read_sync_analog", lambda: sr.read_sync_analog(slice(0, ns))),
+                           ("read_sync", lambda: sr.read_sync(slice(0, ns))),
+                           ("read", lambda: sr.read(slice(0, ns)))):
+            val, exc = _try(call)
+            if not isinstance(exc, IOError):
+                r.bad.append(("%s on a reader that was never opened returned %s / raised %r instead of IOError" % (
+                    name, type(val).__name__, exc), dict(tags, defect="not_open_guard")))
+        exp = np.concatenate([((D[:, 1][:, None] >> np.arange(16)[None, :]) & 1),
+                              (D[:, 0] - 40 >= int(np.ceil(THR_DEFAULT * 32768 / 4)))[:, None]], axis=1).astype(np.int8)
+
+        def opened():
+            if case.get("how") == "with":
+                with sr as rr:
+                    return rr.read_sync(slice(0, ns))
+            sr.open()
+            return sr.read_sync(slice(0, ns))
+        s, exc = _try(opened)
+        if exc is not None or not isinstance(s, np.ndarray) or s.shape != exp.shape or not np.array_equal(s, exp):
+            r.bad.append(("read_sync after opening the reader (%s) is not the decoded recording: %r" % (
+                case.get("how"), exc), dict(tags, defect="after_open")))
+        r.nontrivial = True
+        return r
+    finally:
+        if sr is not None:
+            try:
+                sr.close()
+            except Exception:
+                pass
+        shutil.rmtree(tmp, ignore_errors=True)
+
+
+EXEC = {"notopen": exec_notopen, "long_read": exec_long_read, "split": exec_split, "fronts1": exec_fronts1, "fronts2": exec_fronts2,
         "sync_read": exec_sync_read, "ttl": exec_ttl, "nometa": exec_nometa}
 
 
@@ -951,7 +1006,10 @@ def _run_cases(mp, mpc, time, cases, budget_s, per_case_s, nproc, nchunk):
                     raise
                 pending.append(ch)
     finally:
-        pool.terminate()
+        if pending:
+            pool.terminate()
+        else:
+            pool.close()          # normal end: let the workers exit by themselves (coverage data, atexit hooks)
         pool.join()
     stuck, notrun = [], 0
     if pending:
@@ -1165,7 +1223,16 @@ def fixed_sync_read():
         nc = sum(counts)
         data = [((t * 7919 + c * 104729) % 65536) - 32768 for t in range(6) for c in range(nc)]
         out.append({"kind": "sync_read", "typ": "nidq", "counts": counts, "ns": 6, "nc": nc, "range_max": 4,
-                    "data": data, "slice": sl, "threshold": 1.0, "floor": fl})
+                    "data": data, "slice": sl, "threshold": 1.0, "floor": fl, "gains": [50, 10]})
+    # a 3.3 V TTL on the XA channel next to MN and MA channels with amplifier gains 500 and 10
+    for rmax, gains in ((5, [500, 10]), (4, [2, 100]), (10, [1, 0.5])):
+        nsx, cts = 20, [1, 2, 1, 1]
+        hi = int(round(3.3 / (rmax / 32768.0)))
+        data = []
+        for t in range(nsx):
+            data += [1000 + t, -2000, 3000, hi if 5 <= t < 9 or t == 15 else 12, (t * 4099) % 65536 - 32768]
+        out.append({"kind": "sync_read", "typ": "nidq", "counts": cts, "ns": nsx, "nc": 5, "range_max": rmax,
+                    "data": data, "slice": None, "threshold": None, "floor": "default", "gains": gains})
     return out
 
 
@@ -1176,7 +1243,7 @@ def gen_sync_read(ctx):
     for j in range(n):
         ns = rng.choice([1, 2, 11, 21, 31, 40, 50, 64])
         u = rng.random()
-        range_max = rng.choice([4, 4, 2, 8])
+        range_max = rng.choice([4, 4, 2, 8, 5, 5, 2.5, 10, 1])
         thr = rng.choice([None, None, None, 1.2, 1.0, 0.5, 1.25, 2.0, 0.75])
         if u < 0.72:
             typ = "nidq"
@@ -1206,13 +1273,15 @@ def gen_sync_read(ctx):
                     D[t][mn + ma + c] = max(-32768, min(32767, col[t]))
         sl = rng.choice([None, None, [0, ns], [0, ns], [3, ns - 2], [-15, ns + 5], [ns // 2, ns // 2], [5, 3],
                          [1, 10000], [-10 ** 6, 10 ** 6], [-7, -1]])
+        if sl is not None and rng.random() < 0.2:
+            sl = sl + [rng.choice([2, 3, 7, 1])]        # stepped read: every k-th sample of the range
         fl = rng.choice(["default", "default", "default", 10, 0, None, 50])
         # float32 rounding of an interpolated floor must not be able to flip a bit (>= 10x margin, see
         # analog_safety): redraw the analog columns until that holds, finally fall back to baseline-dominated ones
         if typ == "nidq" and counts[2] > 0:
-            st, sp = (0, 10000) if sl is None else sl
+            st, sp = (0, 10000) if sl is None else sl[:2]
             a_, b_ = _adjust(st, ns), _adjust(sp, ns)
-            sel_ = list(range(a_, max(a_, b_)))
+            sel_ = list(range(a_, max(a_, b_)))[::(sl[2] if sl is not None and len(sl) > 2 else 1)]
             acols_ = list(range(counts[0] + counts[1], counts[0] + counts[1] + counts[2]))
             use_fl = (fl == "default") or bool(fl)
             gf = Fraction(range_max) / 32768
@@ -1242,6 +1311,8 @@ def gen_sync_read(ctx):
         c = {"kind": "sync_read", "typ": typ, "counts": counts, "ns": ns, "nc": nc, "range_max": range_max,
              "data": [v for row in D for v in row], "slice": sl, "threshold": thr, "floor": fl,
              "path_as_str": rng.random() < 0.3, "call_order": rng.randrange(3), "np_slice": rng.random() < 0.25}
+        if typ == "nidq":            # amplifier gains of the MN / MA blocks: never applied to the XA sync channels
+            c["gains"] = [rng.choice([200, 1, 50, 500, 0.5]), rng.choice([1, 10, 10, 2.5, 0.5, 100])]
         if rng.random() < 0.3:       # the meta duration disagrees with the file / an incomplete frame trails
             c["meta_dur"] = rng.choice([["decimals", 4], ["samples", max(0, ns - 1)], ["samples", max(0, ns - 5)],
                                         ["samples", ns + 1], ["samples", ns + 30], None])
@@ -1299,6 +1370,7 @@ def gen_ttl(ctx):
             c["tail_bytes"] = rng.choice([0, 0, 1, 3])
         if typ == "nidq":
             c["counts"] = rng.choice([[0, 0, 0, 1], [0, 0, 1, 1], [2, 1, 2, 1]])
+            c["gains"] = [rng.choice([200, 50]), rng.choice([1, 10, 2.5])]
         cases.append(c)
     return cases
 
@@ -1331,12 +1403,14 @@ def run(ctx):
     common.proof_obligations(ctx, whitelist=sorted(common.STDLIB_AXIOMS), modules=("Props", "Joint"),
                              coqchk_admit=["IBL.C10.Sweep"])
     for name, ax in ctx.theorems.items():
-        if name != "C10_rows_are_the_complete_frames" and ax != "Closed under the global context":
+        if name != "C10_rows_are_the_complete_frames" and ax != "Closed under the global context":   # (C09 joint: closed)
             ctx.broken_proofs.append({"theorem": name, "why": "expected to be closed under the global context: %s" % ax})
     cases = load_corpus()
     cases += gen_split(ctx) + gen_fronts(ctx) + gen_sync_read(ctx) + gen_ttl(ctx)
     cases += [{"kind": "nometa", "ns": 12, "fill_seed": ctx.rng.randrange(10 ** 6)}]
     cases += gen_long_read(ctx)
+    cases += [{"kind": "notopen", "ns": 30, "seed": ctx.rng.randrange(10 ** 6), "how": "with"},
+              {"kind": "notopen", "ns": 30, "seed": ctx.rng.randrange(10 ** 6), "how": "open"}]
     inputs, outputs, owners = [], [], []
     dist = {}
     nontrivial = set()
